@@ -64,6 +64,9 @@ func c18Members() []bMember {
 		// member's own, so it never mentions a marker of another member
 		{JSON: `{"jsonrpc":"2.0","id":21,"method":"echo","params":["p"],"extraAAA":1}`, ID: "21", Kind: "invalid", WantErr: true},
 		{JSON: `{"jsonrpc":"2.0","id":22,"method":"echo","params":["q"],"extraBBB":1}`, ID: "22", Kind: "invalid", WantErr: true},
+		// request and reply fields mixed: invalid, whichever reply field it is
+		{JSON: `{"jsonrpc":"2.0","id":23,"method":"echo","params":["r"],"result":1}`, ID: "23", Kind: "invalid", WantErr: true},
+		{JSON: `{"jsonrpc":"2.0","id":24,"method":"echo","params":["s"],"error":{"code":1,"message":"m"}}`, ID: "24", Kind: "invalid", WantErr: true},
 	}
 }
 
@@ -442,7 +445,7 @@ func c18Scenarios(tier string) []*Scenario {
 	if tier == "quick" {
 		return []*Scenario{
 			c18Bodies(2),
-			c18Concurrent([]int{0, 0}, Bounds{1, 1, 0}),
+			c18Concurrent([]int{0, 0}, Bounds{1, 1, 1}), // one environment deviation: e.g. a non-blocking wake-up that finds its receiver not parked yet
 			c18Concurrent([]int{0, 1}, Bounds{1, 1, 0}),
 			c18Concurrent([]int{2, 0}, Bounds{1, 1, 0}),
 			c18Concurrent([]int{0, 3}, Bounds{1, 1, 0}),
@@ -457,5 +460,6 @@ func c18Scenarios(tier string) []*Scenario {
 	}
 	out = append(out, c18ConcurrentX([]int{0, 0}, true, Bounds{2, 2, 0}), c18ConcurrentX([]int{1, 0}, true, Bounds{2, 1, 0}), c18ConcurrentX([]int{0, 1}, true, Bounds{2, 1, 0}))
 	out = append(out, c18Concurrent([]int{0, 0}, Bounds{2, 2, 0}), c18Concurrent([]int{0, 0, 0}, Bounds{1, 1, 0}), c18Concurrent([]int{0, 1, 2}, Bounds{1, 0, 0}))
+	out = append(out, c18Concurrent([]int{0, 0}, Bounds{1, 1, 1}), c18Concurrent([]int{0, 1}, Bounds{1, 1, 1}), c18Concurrent([]int{0, 0}, Bounds{2, 1, 1}))
 	return out
 }
